@@ -483,6 +483,13 @@ def run(ck, prog, ctx):
     for K, (stem, plural, rec) in sorted(KINDS.items()):
         for ab_ in prog.find(r"^ontology::builder::Builder::<.*>::add_%s$" % stem):
             stores_ = [t_ for fb_ in prog.family(ab_) for _, t_ in fb_.calls() if t_.callee.method in ("insert", "or_insert", "or_insert_with", "or_insert_with_key", "insert_entry", "or_default", "extend") and rec.rsplit("::", 1)[-1] in (t_.callee.def_args or t_.callee.name or "")]
+            if not stores_:
+                from engines import private_scope as _ps02
+                far_ = [t_ for xb_ in _ps02(prog, ab_) for _, t_ in xb_.calls() if t_.callee.method in ("insert", "or_insert", "or_insert_with", "or_insert_with_key", "insert_entry", "or_default", "extend")]
+                helpers_ = [t_ for _, t_ in ab_.calls() if t_.callee.res in prog.bodies and prog.bodies[t_.callee.res].kind in ("Fn", "AssocFn") and prog.bodies[t_.callee.res].name not in ("new", "try_new")]
+                if far_ or helpers_:
+                    ck.undecided("PAIR", "add_%s/stores-a-record" % stem, "add_%s stores through a helper (%s): which map receives the record is not followed" % (stem, (helpers_ or far_)[0].callee.res or (helpers_ or far_)[0].callee.method), where=ab_.where())
+                    continue
             ck.ob("PAIR", "add_%s/stores-a-record" % stem, bool(stores_), "add_%s %s" % (stem, "inserts a %s record into its map" % K if stores_ else "never inserts a %s record into its map: the id it returns names no record (annotate_%s then writes through a missing entry)" % (K, stem)), where=ab_.where())
     # ------------------------------------------------------------------ PHASE: writers of the records' `hpos`
     rec_rx = r"annotations::(gene::Gene|omim_disease::OmimDisease|orpha_disease::OrphaDisease)$"
